@@ -388,3 +388,28 @@ Lemma nonvacuous_0 :
   known_C10 w0 = [] /\ spec_C10 w0 (run_C10 w0) = true /\
   all_accepted (case_steps w0).
 Proof. vm_compute. auto. Qed.
+
+(* a peer that skipped a version: key 1 founds the room, makes key 2 administrator, key 2 makes key 3
+   administrator; the peer holding the first version receives the third directly (and so does a peer that
+   never saw the room); a burst of three user additions *)
+Definition Uz (id date author k : Z) (b : bool) (cd : Z) : unode := Build_unode (Z.to_N id) date (Z.to_N author) (Z.to_N k) b cd.
+Definition Rz (id date author e : Z) (s a : bool) (cd : Z) : rnode := Build_rnode (Z.to_N id) date (Z.to_N author) (Z.to_N e) s a cd.
+Definition Ez (src label dest date author : Z) : edge := Build_edge (Z.to_N src) (Z.to_N label) (Z.to_N dest) date (Z.to_N author).
+Definition Gz (id date author : Z) := Build_anode (Z.to_N id) date (Z.to_N author).
+Definition RMz (id cdate date author : Z) := Build_roomnode (Z.to_N id) cdate date (Z.to_N author).
+Definition wj_old : roomnode :=
+  RMz 1 1000 1000 1 [Ez 1 32 100 1000 1] [Uz 100 1000 1 1 true 1000] [Ez 1 33 10 1000 1]
+    [Gz 10 1000 1 [Ez 10 33 101 1000 1] [Rz 101 1000 1 0 true false 1000] [] [] [] []].
+Definition wj_new : roomnode :=
+  RMz 1 1000 3000 2
+    [Ez 1 32 100 1000 1; Ez 1 32 102 2000 1; Ez 1 32 103 3000 2]
+    [Uz 100 1000 1 1 true 1000; Uz 102 2000 1 2 true 2000; Uz 103 3000 2 3 true 3000]
+    [Ez 1 33 10 1000 1]
+    [Gz 10 1000 1 [Ez 10 33 101 1000 1] [Rz 101 1000 1 0 true false 1000] [] [] [] []].
+Definition wj : c10case := CJump wj_old wj_new [(3%N, 1%N, 5000); (2%N, 1%N, 2500); (3%N, 1%N, 2500)].
+Definition wb : c10case :=
+  CBurst 1%N [[(100, EvAdmin 1 5000 true); (0, EvGroup 10); (101, EvRight 10 0 5000 true false); (102, EvUser 10 2 5000 true)];
+              [(105, EvUser 10 9 8000 true); (103, EvUser 10 10 8000 true); (104, EvUser 10 11 8000 true)]]%N
+         [(9%N, 1%N, 8001); (10%N, 1%N, 8001); (11%N, 1%N, 7999)].
+Lemma jump_and_burst_pass : spec_C10 wj (run_C10 wj) = true /\ hd 0 (run_C10 wj) = 1 /\ spec_C10 wb (run_C10 wb) = true.
+Proof. vm_compute. auto. Qed.
